@@ -72,7 +72,7 @@ CHECKS = {
           "Vector-produced reference logs are validated with RefOK (reader counters = their own header). StatsExact is "
           "an invariant of both session specs for all interleavings, edge-replayed on the real File."),
     design_ref="DESIGN.md §6 C05",
-    note="Written-file cases include sessions configured only after open() and concurrent sessions. 32-bit caller fields are compared modulo 2^31 (TLC integers). The decoder is trusted for the header layout.",
+    note="The header's compressionLevel is a caller field chosen independently of File::compressionLevel; the read grid contains header-only objects (declared size 16). Written-file cases include sessions configured only after open() and concurrent sessions. 32-bit caller fields are compared modulo 2^31 (TLC integers). The decoder is trusted for the header layout.",
     technique="TLA+ format spec + TLC trace validation + session invariants with M1 edge replay"),
  "C06": dict(
     category="model_checking",
@@ -86,7 +86,7 @@ CHECKS = {
           "capacity 10, objects up to 4x(buffer+container)) run under seeded random schedules with exact deadlock/"
           "livelock verdicts. A strict mismatch is re-judged by weak trace validation (behaviour up to invisible steps)."),
     design_ref="DESIGN.md §6 C06, §3.2, §4",
-    note=("Exhaustive only for the small configurations; real-scale runs are sampled schedules. Weak fairness assumed. "
+    note=("I/O fault injection: WriteSession!IOFail lets the output file fail (badbit) between any two steps of any interleaving (configurations wf_*); DeadlockFree/Termination/FaultPrefix hold on that graph and every edge is replayed on the real File, the driver setting badbit on the real fstream between two scheduler steps; M2 traces and real-scale sessions with a fault at a seeded step. Exhaustive only for the small configurations; real-scale runs are sampled schedules. Weak fairness assumed. "
           "Trusted: TLC, scheduler shim, projection of private members."),
     technique="TLA+ session specs + TLC (safety+liveness) + M1 edge replay under a controlled scheduler + seeded schedules"),
  "C07": dict(
@@ -139,7 +139,7 @@ CHECKS = {
           "256 MiB allocation cap; sanitizer report, escaping exception, dead-/live-lock or endless object stream is a "
           "violation."),
     design_ref="DESIGN.md §6 C10, §8",
-    note=("Absence of undefined behaviour is observed by the sanitizers on the enumerated executions, not deduced from "
+    note=("Hostile configurations also include a zeroed header (object size and header size 0, unknown type), a header size above the object size and a stored container with surplus bytes. Absence of undefined behaviour is observed by the sanitizers on the enumerated executions, not deduced from "
           "the spec; one seeded schedule per hostile file."),
     technique="TLA+ hostile session configurations + TLC + M1 edge replay; spec-enumerated fault vectors under ASan/UBSan with exact hang verdicts"),
  "C11": dict(
@@ -162,7 +162,7 @@ CHECKS = {
           "of N = 4..256 containers under application-starving seeded schedules: peak held bytes and queue length "
           "measured after every step, compared with the bound and across N."),
     design_ref="DESIGN.md §6 C12",
-    note="Held data = containers in UncompressedFile::m_data + queue length; other heap is not measured.",
+    note="A hand-made file whose stored container carries more bytes than it declares (r_surplus) must be refused (the accounting counts declared sizes); real-scale peaks count max(declared, stored, compressed) bytes per held container. Held data = containers in UncompressedFile::m_data + queue length; other heap is not measured.",
     technique="TLA+ invariants + TLC + M1 edge replay + measured peaks under seeded starving schedules"),
  "C13": dict(
     category="model_checking",
@@ -172,7 +172,7 @@ CHECKS = {
           "after destruction. Abandoned/early-closed sessions: Accounted/AllDeleted on the session specs for all "
           "interleavings, edge-replayed under ASan."),
     design_ref="DESIGN.md §6 C13",
-    note="The write grid includes a session that writes a restore-point container (LSan). good()/eof() compared only while a read session is open; leaks by LeakSanitizer reachability.",
+    note="Histories also contain open(existing non-BLF file) - the library's exception leaves the stream open until close()/destroy - and write() after close(); write sessions with an I/O fault of the output file at any step release every object (AllDeleted, ASan/LSan replay). The write grid includes a session that writes a restore-point container (LSan). good()/eof() compared only while a read session is open; leaks by LeakSanitizer reachability.",
     technique="TLA+ lifecycle spec + TLC + history replay (M3) under ASan/LSan + session ownership invariants"),
  "C14": dict(
     category="model_checking",
@@ -184,7 +184,7 @@ CHECKS = {
           "whose heap is pre-filled with different patterns, and whole files are written in fresh processes with "
           "different patterns and twice with the same - all hashes must agree."),
     design_ref="DESIGN.md §6 C14",
-    note="Also: three sessions at the same time must write what they write alone; W_late (level/restore points set after open, directed and seeded schedules) must give one output. Stack memory is not poisoned; zlib assumed deterministic.",
+    note="In two of the three poison runs operator delete overwrites the released block (behind a compiler barrier), in the third it does not: an output that depends on released memory differs between runs. Also: three sessions at the same time must write what they write alone; W_late (level/restore points set after open, directed and seeded schedules) must give one output. Stack memory is not poisoned; zlib assumed deterministic.",
     technique="TLA+ session/container specs + TLC + poisoned-heap differential runs"),
  "C15": dict(
     category="model_checking",
